@@ -20,6 +20,12 @@ Two forms are used:
   (no evaluation-context deadline configured), where `C15.bump st` is the state `evalI` hands to
   the node's rule (`steps` counted).
 
+Contents: tools (`SameRun x st y st'` = same outcome and same final state); 1 literals; 2/5 binary operator
+nodes, `&&` / `||`; 3 `if`; 4 statement lists; 6 prefix operators; 7 `for` (while form, counting form, 7b with a
+loop variable); 10 integer comparison, string and array `+`; 8 identifier lookup, assignment then lookup;
+9 `return`, the `Eval` wrapper, function literal, call node, application (cache off) and what
+`extendFunctionEnv` builds for a plain call; one-step equations for the remaining node kinds.
+
 Fuel: `evalI (f + 1) node` gives its sub-terms fuel `f`; running out of fuel is the outcome
 `.error .fuel`, never totalised away.  `eval` is the wrapper `(*State).Eval` (depth guard, unwraps
 `return` values and one reference level), `evalI` is `evalInternal`.
